@@ -20,6 +20,7 @@ pub fn no_subs() -> Vec<Box<dyn DynSub>> {
     Vec::new()
 }
 
+pub mod pyleg;
 pub mod c01;
 pub mod c02;
 pub mod c03;
